@@ -94,6 +94,13 @@ impl ModelTable {
     }
 }
 
+/// Key of the known finding D13 for one specific pair of flows with equal cookies.
+pub fn alias_key(a: &FlowKey, b: &FlowKey) -> String {
+    let d = |k: &FlowKey| format!("{}:{}>{}:{}", k.cip, k.cport, k.sip, k.sport).replace(' ', "");
+    let (x, y) = if a <= b { (a, b) } else { (b, a) };
+    format!("cookie-alias:{}|{}", d(x), d(y))
+}
+
 pub fn authorised_macs(cfg: &Cfg) -> HashSet<Mac> {
     let mut s = HashSet::new();
     s.insert(cfg.mac);
@@ -220,9 +227,20 @@ impl Model {
             cookies.sort();
             cookies.dedup();
             if cookies.len() != tbl.flows.len() && out.n == cookies.len() {
+                // name the (first) pair of validated flows that share a cookie
+                let keys: Vec<&FlowKey> = tbl.flows.keys().collect();
+                let mut pair = "cookie-alias".to_string();
+                'outer: for (i, a) in keys.iter().enumerate() {
+                    for b in keys.iter().skip(i + 1) {
+                        if tbl.cookies.get(*a).is_some() && tbl.cookies.get(*a) == tbl.cookies.get(*b) {
+                            pair = alias_key(a, b);
+                            break 'outer;
+                        }
+                    }
+                }
                 j.findings.push(finding(
                     "C09",
-                    "cookie-alias",
+                    &pair,
                     format!(
                         "{} validated flows share {} cookies: connection table has {} entries",
                         tbl.flows.len(),
@@ -957,7 +975,8 @@ impl Model {
                     }
                     (AppVerdict::Answer(req), None) => {
                         j.class = format!("udp-unanswered:{}", req.kind());
-                        let key = match crate::shadow::explain(payload, true) {
+                        // attribute to a matcher event only what goes through the matcher
+                        let key = match (req.kind() != "dns").then(|| crate::shadow::explain(payload, true)).flatten() {
                             Some(ev) => ev,
                             None => format!("unanswered:{}", req.kind()),
                         };
